@@ -80,8 +80,11 @@ P = {
  'C08': ("vh_C08_email (isEmailValidWithDomains equals last-'@' reference), vh_C08_authonly_groups/_emails/_all/"
          "_domain_concrete (+_domains thorough) (authOnlyAuthorize equals reference incl. exactly-one-'@'), vh_C01_gate_* "
          "(failing session => 403 + cookie cleared), vh_C03_flow_single (callback saves only if validator and Authorize), "
-         "vh_C20_usermap_reload (allow-list changes take effect).",
-         "domains '@'-free; ToLower ASCII; provider group rules (ProviderData.Authorize) are an arbitrary Boolean"),
+         "vh_C20_usermap_reload (allow-list changes take effect), vh_C08_validator (the installed validator closure: "
+         "domain rule OR allow-list file, '*', empty e-mail, case-insensitive), vh_C08_groups (ProviderData.Authorize = "
+         "allowed-groups intersection).",
+         "domains '@'-free; ToLower ASCII; in the gate/flow harnesses validator and Authorize are arbitrary Booleans "
+         "(their meaning is decided by the dedicated harnesses)"),
  'C09': ("vh_C09_window(_ns) (Validate window both directions), vh_C10_cookie_roundtrip and vh_C10_manager_roundtrip "
          "(a saved session loads iff its creation time lies inside the lifetime: the signature timestamp is "
          "session.CreatedAt, cookie store and ticket store), vh_C13_manager_save (store TTL = cookie expire, Max-Age), "
@@ -101,10 +104,10 @@ P = {
          "backend-logout HTTP call and Redis itself not harnessed"),
  'C12': ("vh_C12_seq: stored-session loader with nondeterministic store/lock/refresher/validator: stale => "
          "refreshed-and-saved or revalidated, validated session = session in force, new tokens in scope and in Save, lock "
-         "released, save under lock; vh_C12_conc: op-traces of two requests sharing a ticket composed under a symbolic "
-         "scheduler (exactly one refresh, all served, newest tokens); vh_C12_redis_lock_obtain (redislock outcome "
+         "released, save under lock; vh_C12_conc: op-traces of two (thorough: two or three) requests sharing a ticket "
+         "composed under a symbolic scheduler (exactly one refresh, all served, newest tokens); vh_C12_redis_lock_obtain (redislock outcome "
          "mapping).",
-         "2 concurrent requests; lock timeout never fires (provider answers within the lock duration, as the property "
+         "2 (thorough 3) concurrent requests, a request finds the lock busy at most twice; lock timeout never fires (provider answers within the lock duration, as the property "
          "assumes)"),
  'C13': ("vh_C12_seq, vh_C01_gate_*, vh_C13_manager_save, vh_C10_manager_roundtrip, vh_C11_manager_clear, "
          "vh_C13_gcm_decrypt/_cfb_decrypt/_b64_decrypt/_gcm_roundtrip, vh_C03_flow_single, vh_C12_redis_lock_obtain, "
